@@ -56,6 +56,11 @@ def generate(rng, tier, index):
     for _ in range(rng.randint(6, 12)):
         f = {k: rng.choice([0, 1, (1 << w) - 1, rng.getrandbits(w), rng.getrandbits(w)]) for k, w in W.items()}
         f["aes_rand"] = hx(bytes(rng.getrandbits(8) for _ in range(16)))
+        if rng.random() < 0.2:
+            # seeds that look like something else: text, hex digits, whitespace, all equal bytes
+            f["aes_rand"] = hx(rng.choice([b"0123456789abcdef", b"A" * 16, b" " * 16, b"deadbeefcafebabe", b"0" * 16, bytes(16), b"\xff" * 16,
+                                           b"1234567890123456", b"\t\n\r abcdef012345", bytes(rng.choice(b"0123456789abcdefABCDEF") for _ in range(16))]))
+        f["aes_rand_as"] = rng.choice(["bytes", "bytes", "bytearray"])
         n = rng.choice([0, 1, 20, lim - 1, lim, lim, lim + 1, lim + 40, rng.randint(0, lim)])
         f["info"] = hx(bytes(rng.choice([9, 32, 65, 97, 0, 255, rng.getrandbits(8)]) for _ in range(n)))
         # history on one metadata object: re-encrypt after changing info; re-encrypt what decrypt_metadata returned
@@ -65,8 +70,11 @@ def generate(rng, tier, index):
     other = {"rsa1024_a": "rsa1024_b", "rsa1024_b": "rsa1024_a", "rsa2048_a": "rsa2048_b", "rsa2048_b": "rsa2048_a"}[rsa]
     rogue = []
     for _ in range(rng.randint(4, 10)):
-        k = rng.choice(["wrong_key", "random", "bitflip", "bitflip", "no_magic", "no_magic", "short"])
+        k = rng.choice(["wrong_key", "random", "bitflip", "bitflip", "no_magic", "no_magic", "short", "wrong_length", "wrong_length"])
         r = {"kind": k, "seed": rng.getrandbits(30)}
+        if k == "wrong_length":
+            # a valid blob with bytes in front of / behind it, repeated, or cut: its length is not the modulus length
+            r["how"] = rng.choice(["prefix00", "prefix01", "prefix_garbage", "suffix00", "suffix_garbage", "twice", "cut_head", "cut_tail", "empty"])
         if k == "bitflip":
             r["bit"] = rng.randint(0, rsa_key(rsa).size_in_bytes() * 8 - 1)
         if k == "no_magic":
@@ -158,8 +166,9 @@ def execute(plan: dict) -> Result:
                 res.violate(("C06", "roundtrip_fields_differ", ",".join(sorted(bad)) or "size"),
                             f"decrypt_metadata(encrypt_metadata(m)) differs in {bad or ['size']}")
             d = hashlib.sha256(fields["aes_rand"]).digest()
-            k1 = derive_aes_hmac_keys(fields["aes_rand"])
-            k2 = BeaconKeys.from_aes_rand(fields["aes_rand"])
+            seed_arg = bytearray(fields["aes_rand"]) if f.get("aes_rand_as") == "bytearray" else fields["aes_rand"]
+            k1 = derive_aes_hmac_keys(seed_arg)
+            k2 = BeaconKeys.from_aes_rand(seed_arg)
             k3 = BeaconKeys.from_beacon_metadata(back)
             if tuple(k1) != (d[:16], d[16:]) or (k2.aes_key, k2.hmac_key) != (d[:16], d[16:]) or (k3.aes_key, k3.hmac_key) != (d[:16], d[16:]):
                 res.violate(("C06", "key_derivation"), "session keys are not the two halves of SHA-256(aes_rand)")
@@ -221,6 +230,14 @@ def execute(plan: dict) -> Result:
             elif k == "random":
                 blob = prng_bytes(r["seed"], klen)
                 res.probes["rogue_random"] += 1
+            elif k == "wrong_length":
+                if not blobs:
+                    continue
+                good = blobs[r["seed"] % len(blobs)]
+                g = prng_bytes(r["seed"], 7)
+                blob = {"prefix00": b"\x00" + good, "prefix01": b"\x01" + good, "prefix_garbage": g + good, "suffix00": good + b"\x00",
+                        "suffix_garbage": good + g, "twice": good + good, "cut_head": good[1:], "cut_tail": good[:-1], "empty": b""}[r["how"]]
+                res.probes["rogue_wrong_length"] += 1
             elif k == "bitflip":
                 if not blobs:
                     continue
@@ -232,7 +249,7 @@ def execute(plan: dict) -> Result:
                 blob = PKCS1_v1_5.new(pub).encrypt(unhx(r["plain"]))
                 res.probes["rogue_no_magic" if k == "no_magic" else "rogue_short_plaintext"] += 1
             # what does the reference say about this blob?
-            pt = rc.rsa_decrypt(blob, priv)
+            pt = rc.rsa_decrypt(blob, priv) if len(blob) == klen else None      # an RSA ciphertext has exactly the modulus length
             ref_ok = pt is not None and len(pt) >= 4 and pt[:4] == b"\x00\x00\xbe\xef"
             try:
                 m = decrypt_metadata(blob, priv)
